@@ -62,6 +62,15 @@ func (v *Vue) evalInclude(ctx VueContext, node *html.Node, vars map[string]any, 
 		return nil, fmt.Errorf("error in %s (included from %s): %w", name, ctx.FormatTemplateChain(), err)
 	}
 
+	// A component whose root element is <template> has been evaluated by evalTemplate already (its
+	// children, or a nested include): evaluating the result a second time would read the substituted
+	// values as template source. Any other root is handed back as-is and is evaluated here.
+	if len(compDom) > 0 && compDom[0].Type == html.ElementNode && compDom[0].Data == "template" {
+		if len(processedDom) == 0 || processedDom[0] != compDom[0] {
+			return processedDom, nil
+		}
+	}
+
 	childCtx := ctx.WithTemplate(name)
 	return v.evaluate(childCtx, processedDom, depth+1)
 }
